@@ -2486,6 +2486,9 @@ class PGPKey(Armorable, ParentRef, PGPObject):
                 issues = signature_issues | subkey_issues
                 if issues and issues.causes_signature_verify_to_fail:
                     sigv.add_sigsubj(sig, self, subj, issues)
+                elif sig.type in {SignatureType.Standalone, SignatureType.Timestamp} and subj is not None:
+                    # these signatures cover only their own subpackets: they say nothing about any subject presented with them
+                    sigv.add_sigsubj(sig, self, subj, SecurityIssues.WrongSig)
                 else:
                     verified = self._key.verify(sig.hashdata(subj), sig.__sig__, getattr(hashes, sig.hash_algorithm.name)())
                     if verified is NotImplemented:
